@@ -23,6 +23,8 @@ def kwargs_of(frame, n):
             if v[0] == 'dict':
                 for kk, vv in v[1]:
                     if isinstance(kk, str):
+                        if kk in kw:
+                            frame.ctx.event("duplicate-keyword", kk, (kw[kk], vv), guard=frame.guard(), loops=frame.loops, where=frame.where(n))
                         kw[kk] = vv
                     else:
                         extra.append(vv)
@@ -280,6 +282,8 @@ def builtin_value(fr, name, args, kw, n):
             return (name, ())
         if a0[0] in ('list', 'tuple'):
             return (name, a0[1])
+        if a0[0] == 'nd' and a0[1][0] in ('list', 'tuple'):
+            return (name, a0[1][1])
         if a0[0] == 'keys' and len(a0) > 2 and a0[2][0] in ('dict', 'table'):
             return (name, tuple(C(k) for k in a0[1]))
         if a0[0] == 'map':
@@ -338,9 +342,41 @@ length = T.length
 keylen = T.keylen
 
 
-def shape_of(a):
+def dims_of(a):
+    """tuple of dimension terms of an array term with known shape, else None"""
+    if a[0] == 'nd':
+        a = a[1]
     if a[0] == 'shaped':
-        return ('tuple', tuple(C(d) if isinstance(d, int) else d for d in a[2]))
+        return tuple(C(d) if isinstance(d, int) else d for d in a[2])
+    if a[0] == 'call' and a[1] == 'swapaxes' and len(a[2]) == 3 and all(T.isconst(x) and isinstance(x[1], int) for x in a[2][1:]):
+        d = dims_of(a[2][0])
+        if d is not None:
+            d = list(d)
+            i, j = a[2][1][1], a[2][2][1]
+            d[i], d[j] = d[j], d[i]
+            return tuple(d)
+    if a[0] == 'call' and a[1] == 'reshape' and len(a[2]) >= 2:
+        return tuple(a[2][1:]) if a[2][1][0] != 'tuple' else tuple(a[2][1][1])
+    if a[0] == 'call' and a[1] == 'flatten' and len(a[2]) == 1:
+        d = dims_of(a[2][0])
+        if d is not None:
+            n = C(1)
+            for x in d:
+                n = T.mul(n, x)
+            return (n,)
+    if a[0] == 'idx' and (T.is_int(a[2]) or a[2][0] == 'lv'):
+        d = dims_of(a[1])
+        if d is not None and len(d) > 1:
+            return d[1:]
+    if a[0] in ('list', 'tuple'):
+        return (C(len(a[1])),)
+    return None
+
+
+def shape_of(a):
+    d = dims_of(a)
+    if d is not None:
+        return ('tuple', d)
     return T.call('shape', (a,))
 
 
@@ -678,6 +714,11 @@ def method(fr, recv, recv_node, name, args, kw, extra, n):
     if name == 'get_loc':
         return T.call('get_loc', (recv,) + tuple(args))
     # ---- ndarray
+    if name == 'flatten' and not args and not kw and recv[0] == 'nd' and recv[1][0] == 'list':
+        inner = recv[1][1]                      # C-order flattening of a (nested) literal list
+        if inner and all(x[0] == 'list' for x in inner):
+            inner = tuple(y for x in inner for y in x[1])
+        return ('nd', ('list', inner))
     if name == 'flatten':
         if recv[0] == 'shaped' and all(isinstance(d, int) for d in recv[2]):
             n_ = 1
